@@ -66,13 +66,15 @@ CFG = {
     "level_text_round4": "Round 4 (Props/C17Body.lean): tf_reset/cursorTo/insertString/deleteRight/deleteLeft/killToEnd/checkChanged/handleEvent_body_eq_model - each TextField function as "
                   "translated from the source on this run (Gen/EditorLang.lean) and interpreted IS the model function (value, cursor, cached count n, result command, callbacks); textfield_source_refines - for every Segmentation and every "
                   "history the interpreted source refines the ideal editor (cursor within the text, n = count); ti_setContent/ti_resegment_body_eq_model and ti_update_body_eq_model - textinput.Update for EVERY event and state (type switch, paste bracket, "
-                  "release test, all nineteen key labels with their loops, index and slice panics, default arm, clamping, resegment) is the model's update, result for result, panic for panic; editor_bodies_fully_recognised. "
+                  "release test, all nineteen key labels with their loops, index and slice panics, default arm, clamping, resegment) is the model's update, result for result, panic for panic; textinput_source_refines (end to end for every Segmentation and history); "
+                  "tf_draw_body_eq_model - TextField.Draw as translated computes the model's cursor column (uint16 = integer modulo 65536); editor_bodies_fully_recognised; Props/C17Seg: every streaming segmentation (each code point starts a cluster or extends the last) "
+                  "meets the three laws, the driver's UAX #29 oracle clUax is one for every class assignment, so the two end-to-end theorems hold for it with no hypothesis (what stays outside Lean: uniseg = clUax, compared on every op). "
                   "The driver's model column is the interpreter on the regenerated bodies for all four kinds, so a changed statement changes the model, breaks the theorem of that function, and is judged by the ideal-editor oracle "
                   "(which since round 4 also judges the TextField's cursor INDEX, not only the drawn column). Segmentation laws checked on the real uniseg for every text over the 19 atoms up to length 3 (thorough 4) and thousands of random ones.",
     "level_note": "Validated by correspondence only: that Key.String()/Key.Matches produce the strings/verdicts the tables list (C09's subject); that "
                   "uniseg is a Segmentation and equals the driver's clUax (compared on every op); which offset Draw settles on when the line does NOT fit (the scroll policy: modelled in draw/scrollLoop, compared cell by cell; theorems say what is "
                   "shown for the offset it settles on and bound it by 0 <= offset <= cursor, not which offset it is). New oracle on the implementation (round 3): in the scrolled case the drawn row is the prompt followed by a window of the ideal text for some offset 0..cursor, truncators at the cut ends. Modelled, not "
-                  "verified: nothing in the editing functions; since round 4 every statement of the editing functions (guards included) is in the translated bodies the theorems speak about; the Draw functions (TextField.Draw, textinput.Draw, widthToCursor, isAlphaNumeric) are still hand models tied by the round-2 text pins and the correspondence run. Not modelled: "
+                  "verified: nothing in the editing functions; since round 4 every statement of the editing functions (guards included) is in the translated bodies the theorems speak about; textinput.Draw, widthToCursor, isAlphaNumeric are still hand models tied by the round-2 text pins (printed with canonical variable names since round 4) and the correspondence run; the cells TextField.Draw writes are not modelled. Not modelled: "
                   "direct assignment to the public field TextField.Value, HideCursor, a tab typed into textinput (vaxis.Characters turns it into 8 "
                   "blanks before the editor sees it).",
     "timeout": 1500,
